@@ -1,5 +1,5 @@
 (* OpsTxId.v — protocol ops for C05. *)
-From MRS Require Import Model.Base Model.Codec Model.Keccak Model.TxId Model.BlockId Spec.TxIdSpec Model.OpsCodec.
+From MRS Require Import Model.Base Model.Codec Model.Keccak Model.TxId Model.BlockId Spec.TxIdSpec Model.OpsCodec Model.Show.
 From Coq Require Import String Ascii.
 Open Scope string_scope.
 
@@ -23,6 +23,12 @@ Definition ops_txid (op : string) (args0 : list string) : option string :=
                                | _, _ => "ERR" end)
              | None => None end
     | _ => None end
+  else if String.eqb op "txhash_desc" then
+    (* Hashable::hash of a transaction VALUE given in token form (also values no byte string parses to, e.g. a non-Null
+       RingCT type without its prunable part): Transaction::hash and TransactionPrefix::hash are total *)
+    match p_all p_tx args with
+    | Some t => Some ("OK " ++ show_hex (tx_hash keccak256 t) ++ " " ++ show_hex (prefix_hash keccak256 (tx_prefix t)))
+    | None => None end
   else if String.eqb op "blockfull" then
     (* a complete block from its bytes: Block::tx_root, serialize_hashable, id of the PARSED block *)
     match args with
